@@ -203,7 +203,9 @@ func (t *throttler) Next() bool {
 	t.cond.L.Lock()
 	defer t.cond.L.Unlock()
 
-	for !t.waiting && !t.stop {
+	// A trailing trigger sets waiting while the current period is still running:
+	// it must not be honoured before the period's end, when Call's timer broadcasts.
+	for !t.stop && (!t.waiting || time.Since(t.last) < t.duration) {
 		t.cond.Wait()
 	}
 
